@@ -333,3 +333,127 @@ def part2(chk):
             # of the implementation unless the implementation still matches the dense spec (then the model is stale).
             chk.violation(cell, f"implementation differs from the Lean model (which is proved to compute the dense definition): line `{line[:200]}` model `{model[:200]}` impl `{impl[:200]}`",
                           {"line": line, "model": model, "impl": impl})
+
+
+# ------------------------------------------------------------------------------------------- operator trees
+def gen_tree(rng, depth, rows, cols, k=None):
+    """Random tree of the grammar of LinOp/C01/OpTree.lean with outer size rows x cols.
+    Returns (tokens(member) -> list of driver tokens, build() -> library operator); with `k` every leaf tensor carries a
+    leading batch dim k (the k members are the blocks of an enclosing Block*/SumBatch operator)."""
+    from linear_operator.operators import (
+        AddedDiagLinearOperator, BlockDiagLinearOperator, BlockInterleavedLinearOperator, CatLinearOperator,
+        ConstantMulLinearOperator, DenseLinearOperator, DiagLinearOperator, KroneckerProductLinearOperator,
+        MatmulLinearOperator, RootLinearOperator, SumBatchLinearOperator, SumLinearOperator,
+    )
+    dt = torch.float64
+    b = () if k is None else (k,)
+    sel = lambda t, i: t if k is None else t[i]
+
+    def leaf_dense():
+        A = ri(rng, (*b, rows, cols), -2, 2, dt)
+        return (lambda i: ["dense", M(sel(A, i))]), (lambda: DenseLinearOperator(A.clone()))
+    choices = ["dense"]
+    if depth > 0:
+        choices += ["sum", "matmul", "cmul", "T", "T"]
+        if rows == cols:
+            choices += ["diag", "adiag", "root"]
+        divs_r = [d for d in range(1, rows + 1) if rows % d == 0]
+        divs_c = [d for d in range(1, cols + 1) if cols % d == 0]
+        choices += ["kron", "kron"]
+        if rows >= 2:
+            choices.append("catr")
+        if cols >= 2:
+            choices.append("catc")
+        if k is None:
+            choices += ["sumb"]
+            if rows == cols and rows >= 2:
+                choices += ["bdiag"]
+            common = [d for d in (2, 3) if rows % d == 0 and cols % d == 0]
+            if common:
+                choices += ["binter"]
+    c = rng.choice(choices)
+    if c == "dense":
+        return leaf_dense()
+    if c == "diag":
+        d = ri(rng, (*b, rows), -2, 2, dt)
+        return (lambda i: ["diag", M(sel(d, i)[None])]), (lambda: DiagLinearOperator(d.clone()))
+    if c == "sum":
+        (ta, ba), (tb, bb) = gen_tree(rng, depth - 1, rows, cols, k), gen_tree(rng, depth - 1, rows, cols, k)
+        return (lambda i: ["sum"] + ta(i) + tb(i)), (lambda: SumLinearOperator(ba(), bb()))
+    if c == "matmul":
+        j = rng.randint(1, 3)
+        (ta, ba), (tb, bb) = gen_tree(rng, depth - 1, rows, j, k), gen_tree(rng, depth - 1, j, cols, k)
+        return (lambda i: ["matmul"] + ta(i) + tb(i)), (lambda: MatmulLinearOperator(ba(), bb()))
+    if c == "cmul":
+        kc = ri(rng, b, -2, 2, dt)
+        ta, ba = gen_tree(rng, depth - 1, rows, cols, k)
+        return (lambda i: ["cmul", str(int(sel(kc, i)))] + ta(i)), (lambda: ConstantMulLinearOperator(ba(), kc.clone()))
+    if c == "adiag":
+        d = ri(rng, (*b, rows), -2, 2, dt)
+        ta, ba = gen_tree(rng, depth - 1, rows, cols, k)
+        return (lambda i: ["adiag", M(sel(d, i)[None])] + ta(i)), (lambda: AddedDiagLinearOperator(ba(), DiagLinearOperator(d.clone())))
+    if c == "root":
+        ta, ba = gen_tree(rng, depth - 1, rows, rng.randint(1, 3), k)
+        return (lambda i: ["root"] + ta(i)), (lambda: RootLinearOperator(ba()))
+    if c == "T":
+        ta, ba = gen_tree(rng, depth - 1, cols, rows, k)
+        return (lambda i: ["T"] + ta(i)), (lambda: ba().mT)
+    if c == "kron":
+        r1, c1 = rng.choice(divs_r), rng.choice(divs_c)
+        (ta, ba), (tb, bb) = gen_tree(rng, depth - 1, r1, c1, k), gen_tree(rng, depth - 1, rows // r1, cols // c1, k)
+        return (lambda i: ["kron"] + ta(i) + tb(i)), (lambda: KroneckerProductLinearOperator(ba(), bb()))
+    if c == "catr":
+        r1 = rng.randint(1, rows - 1)
+        (ta, ba), (tb, bb) = gen_tree(rng, depth - 1, r1, cols, k), gen_tree(rng, depth - 1, rows - r1, cols, k)
+        return (lambda i: ["catr"] + ta(i) + tb(i)), (lambda: CatLinearOperator(ba(), bb(), dim=-2))
+    if c == "catc":
+        c1 = rng.randint(1, cols - 1)
+        (ta, ba), (tb, bb) = gen_tree(rng, depth - 1, rows, c1, k), gen_tree(rng, depth - 1, rows, cols - c1, k)
+        return (lambda i: ["catc"] + ta(i) + tb(i)), (lambda: CatLinearOperator(ba(), bb(), dim=-1))
+    if c == "sumb":
+        kk = rng.randint(1, 3)
+        ta, ba = gen_tree(rng, depth - 1, rows, cols, kk)
+        return (lambda i: ["sumb", str(kk)] + [t for j in range(kk) for t in ta(j)]), (lambda: SumBatchLinearOperator(ba()))
+    if c == "bdiag":
+        kk = rng.choice([d for d in range(2, rows + 1) if rows % d == 0])
+        ta, ba = gen_tree(rng, depth - 1, rows // kk, cols // kk, kk)
+        return (lambda i: ["bdiag", str(kk)] + [t for j in range(kk) for t in ta(j)]), (lambda: BlockDiagLinearOperator(ba()))
+    if c == "binter":
+        kk = rng.choice(common)
+        ta, ba = gen_tree(rng, depth - 1, rows // kk, cols // kk, kk)
+        return (lambda i: ["binter", str(kk)] + [t for j in range(kk) for t in ta(j)]), (lambda: BlockInterleavedLinearOperator(ba()))
+    raise AssertionError(c)
+
+
+def part3(chk):
+    """Operator trees: the Lean tree evaluator (`Op.eval`, proved to refine `Op.denseSem` for every tree) vs the nested
+    library operator: `_matmul`, `to_dense`, `_t_matmul`."""
+    rng = chk.rng
+    ntrees = 40 if chk.tier == "quick" else 400
+    cs = []
+    for _ in range(ntrees):
+        rows, cols = rng.choice([1, 2, 3, 4, 6]), rng.choice([1, 2, 3, 4, 6])
+        depth = rng.choice([1, 2, 2, 3])
+        toks, build = gen_tree(rng, depth, rows, cols)
+        tk = toks(0)
+        X, Y = ri(rng, (cols, 2), -2, 2), ri(rng, (rows, 1), -2, 2)
+        shape = " ".join(t for t in tk if not any(ch.isdigit() for ch in t) or t in ("T",))
+        cs.append((f"C01/corr/tree[{rows}x{cols}]/{shape.replace(' ', '.')[:80]}", f"{M(X)} {M(Y)} " + " ".join(tk), build, X, Y))
+    outs = chk.run_driver("LinOp.C01.TreeDriver", [c[1] for c in cs])
+    if outs is None:
+        return
+    for (cell, line, build, X, Y), model in zip(cs, outs):
+        chk.case(cell + " " + line, nontrivial=True)
+        chk.count("corr:tree")
+        chk.count("tree-root:" + cell.split("/")[-1].split(".")[0])
+        try:
+            with warnings.catch_warnings():
+                warnings.simplefilter("ignore")
+                impl = M(build()._matmul(X.clone())) + " # " + M(build().to_dense()) + " # " + M(build()._t_matmul(Y.clone()))
+        except Exception as e:
+            impl = f"raised {type(e).__name__}: {e}"[:200]
+        if impl == model:
+            chk.traces_validated += 1
+        else:
+            chk.violation(cell, f"nested operator differs from the Lean tree evaluator (proved = dense semantics of the tree): `{line[:300]}` model `{model[:200]}` impl `{impl[:200]}`",
+                          {"line": line, "model": model, "impl": impl})
